@@ -386,6 +386,11 @@ class Serializer:
         self, gate: cirq.MeasurementGate, targets: Sequence[int]
     ) -> dict:
         key = cirq.measurement_key_name(gate)
+        if any(gate.full_invert_mask()):
+            raise ValueError(
+                'IonQ API has no way to express a measurement invert mask, so measurement gates '
+                f'with an invert mask cannot be serialized. Key was {key}'
+            )
         if chr(31) in key or chr(30) in key:
             raise ValueError(
                 'Measurement gates for IonQ API cannot have a key with a ascii unit'
